@@ -39,8 +39,15 @@ func fingerprints(c *Ctx) map[string]anchorFP {
 		}
 		name := prog.RawFuncName(f.Obj)
 		set := map[string]bool{}
+		inCallPos := map[*ast.Ident]bool{}
 		ast.Inspect(f.Decl.Body, func(n ast.Node) bool {
 			if call, ok := n.(*ast.CallExpr); ok {
+				switch fun := ast.Unparen(call.Fun).(type) {
+				case *ast.Ident:
+					inCallPos[fun] = true
+				case *ast.SelectorExpr:
+					inCallPos[fun.Sel] = true
+				}
 				if cal := callee(f.Pkg, call); cal != nil && cal.Pkg() != nil {
 					cn := cal.Pkg().Name() + "." + cal.Name()
 					if c.P.IsLibPkg(cal.Pkg()) {
@@ -53,6 +60,25 @@ func fingerprints(c *Ctx) map[string]anchorFP {
 					set[cn] = true
 				}
 			}
+			return true
+		})
+		// a function of the library used as a value (the step functions of the scanner are never called by name: they
+		// are stored into s.step or pushed): counted like a call, in both directions
+		ast.Inspect(f.Decl.Body, func(n ast.Node) bool {
+			id, ok := n.(*ast.Ident)
+			if !ok || inCallPos[id] {
+				return true
+			}
+			fo, ok := f.Pkg.TypesInfo.Uses[id].(*types.Func)
+			if !ok || fo.Pkg() == nil || !c.P.IsLibPkg(fo.Pkg()) {
+				return true
+			}
+			cn := prog.RawFuncName(fo.Origin())
+			if callers[cn] == nil {
+				callers[cn] = map[string]bool{}
+			}
+			callers[cn][name] = true
+			set[cn] = true
 			return true
 		})
 		var cs []string
